@@ -158,16 +158,22 @@ def scalePt (tb fb : Rat) (p : Pt) : Pt := (p.1 * factor tb, p.2 * factor fb)
 /-- `x / factor` of the second `shapely.transform` -/
 def unscalePt (tb fb : Rat) (q : Pt) : Pt := (q.1 / factor tb, q.2 / factor fb)
 
-/-- the rectangle handed to `clip_by_rect`, `maxT` being `buffered.bounds[2]` -/
-def clipRect (maxT : Rat) : Bounds := ⟨0, 0, maxT + 1, MAXF⟩
+/-- the rectangle handed to `clip_by_rect`, `maxT` being `buffered.bounds[2]` and `m` the margin the
+    code adds to it (1 in the source; all that matters, and all the tie pins, is `0 ≤ m`) -/
+def clipRect (m maxT : Rat) : Bounds := ⟨0, 0, maxT + m, MAXF⟩
 
 /-- the straight-line skeleton of `buffer_shapely_geometry` (target of the symbolic trace):
     where a point `(x, y)` of the input is sent before buffering, the buffer distance, where a
-    point `(bx, by)` of GEOS's buffer is sent afterwards, and the clip rectangle computed from
-    the largest x `b2` of GEOS's buffer -/
-def pipelineSkeleton (x y bx by_ b2 tb fb : Rat) : Pt × Rat × Pt × Rat × Rat × Rat × Rat :=
-  let r := clipRect (unscalePt tb fb (b2, 0)).1
-  (scalePt tb fb (x, y), 1, unscalePt tb fb (bx, by_), r.st, r.lo, r.en, r.hi)
+    point `(bx, by)` of GEOS's buffer is sent afterwards, and the clip rectangle: its lower time,
+    lower frequency and upper frequency, and for its upper time `xmax` only that it is not below the
+    largest time of the unscaled buffer (`b2` being the largest x of GEOS's buffer) -/
+def pipelineSkeleton (x y bx by_ b2 xmax tb fb : Rat) : Pt × Rat × Pt × Rat × Rat × Bool × Rat :=
+  let r := clipRect (xmax - (unscalePt tb fb (b2, 0)).1) (unscalePt tb fb (b2, 0)).1
+  (scalePt tb fb (x, y), 1, unscalePt tb fb (bx, by_), r.st, r.lo, decide ((unscalePt tb fb (b2, 0)).1 ≤ r.en), r.hi)
+
+/-- what the tie establishes of the skeleton for all inputs -/
+def pipelineSkeletonSpec (x y bx by_ tb fb : Rat) : Pt × Rat × Pt × Rat × Rat × Bool × Rat :=
+  (scalePt tb fb (x, y), 1, unscalePt tb fb (bx, by_), 0, 0, true, MAXF)
 
 /-- a set of (time, frequency) points -/
 abbrev PSet := Pt → Prop
@@ -181,9 +187,10 @@ def scaled (tb fb : Rat) (S : PSet) : PSet := fun q => ∃ p, S p ∧ q = scaleP
 def dist2 (q c : Pt) : Rat := (q.1 - c.1) * (q.1 - c.1) + (q.2 - c.2) * (q.2 - c.2)
 
 /-- the result of the pipeline as a point set: the unscaled GEOS buffer (`buf`, distance 1) of the
-    scaled input, cut to the clip rectangle.  `maxT` is what `buffered.bounds[2]` returned. -/
-def pipelineSet (buf : PSet → PSet) (S : PSet) (tb fb maxT : Rat) : PSet :=
-  fun p => inRect (clipRect maxT) p ∧ ∃ q, buf (scaled tb fb S) q ∧ p = unscalePt tb fb q
+    scaled input, cut to the clip rectangle.  `maxT` is what `buffered.bounds[2]` returned, `m` the
+    margin added to it. -/
+def pipelineSet (buf : PSet → PSet) (S : PSet) (tb fb m maxT : Rat) : PSet :=
+  fun p => inRect (clipRect m maxT) p ∧ ∃ q, buf (scaled tb fb S) q ∧ p = unscalePt tb fb q
 
 /-- `maxT` bounds the times of the unscaled buffer from above (it is shapely's `bounds[2]` of it) -/
 def IsMaxTime (buf : PSet → PSet) (S : PSet) (tb fb maxT : Rat) : Prop :=
